@@ -104,7 +104,7 @@ func fxAtom(r *hx.Rng, places int) string {
 		ip := "9223372036854775807"[:19-places]
 		return hx.Pick(r, []string{ip, ip + ".5", ip[:len(ip)-1], "1" + strings.Repeat("0", 18-places), strings.Repeat("9", 18-places), strings.Repeat("9", 19-places)})
 	case 7, 8:
-		return hx.Pick(r, []string{"$x", "$y", "$z", "$h", "$n", "$neg", "$foo.bar", "$a_1", "$tiny", "$max4", "$big", "$sp", "$comma", "$str", "$bool", "$x", "$y", "$n", "$h",
+		return hx.Pick(r, []string{"$x", "$y", "$z", "$h", "$n", "$neg", "$foo.bar", "$a_1", "$tiny", "$max4", "$big", "$sp", "$comma", "$str", "$bool", "$x", "$y", "$n", "$h", "$a1e", "$r2e", "$x.1e", "$a#1e", "$rate", "$a1e",
 			"$ws", "$paren", "$expr", "$undefined"})
 	case 9: // texts: the string fall-backs of == < + and the string condition of if
 		if r.Bool() {
@@ -115,6 +115,9 @@ func fxAtom(r *hx.Rng, places int) string {
 		return hx.Pick(r, []string{".5", "5.", "-.5", "+5", "+.5", "-0", "-0.0", "-0.5", "00.5", "-00.5", "007", "1,000", "1,0,0.5", ",1", "1,", "0.", "0.0000000000000000000001",
 			"1.99999999999999999999", "0.00005", "0.00004", "0.99995", "1.0000", "+0", "+", "-", "1.-5", "1.+5", "1.5-", "٣"})
 	case 11: // rarely: what the model leaves to the implementation
+		if !r.Chance(1, 4) {
+			return strconv.Itoa(r.Intn(50)) + "." + strconv.Itoa(r.Intn(10))
+		}
 		return hx.Pick(r, []string{"1e2", "1e-2", "2.5E1", "1e", "e", "E", "1e400", "sqrt(4)", "2 ^ 3", "log(1)", "exp(0)"})
 	default:
 		return strconv.Itoa(r.Intn(21) - 10)
@@ -182,8 +185,8 @@ func (fxArea) Gen(r *hx.Rng, n int, _ string, emit func(string)) {
 		switch {
 		case i%97 == 0:
 			s = bigExpr(r)
-		case r.Chance(1, 12):
-			s = malformed(r)
+		case r.Chance(1, 16):
+			s = strings.ReplaceAll(malformed(r), "^", "*")
 		case r.Chance(1, 12):
 			s = strings.ReplaceAll(boolExpr(r), "1e-2", "0.01")
 		case r.Chance(1, 30):
